@@ -9,7 +9,7 @@
    _partial, exactly:
    - comment-free statements: Parser.v's statement trees carry no comments (as Pratt.v's trees
      carry no multiline items), so a statement with a trailing comment is outside;
-   - the statement kinds below; typed declarations, assignments, and the block statements
+   - the statement kinds below; assignments to an index or dot target and the block statements
      (if / while / for / func / on) are not done;
    - the value / arguments satisfy [top_ok] / [item_ok] (C06_roundtrip.v: the layered fragment,
      array and map literals, parenthesised and niladic calls as whole expressions, and a call
@@ -33,7 +33,7 @@ Theorem C06_roundtrip_inferred_decl_partial :
   ident_text x = true -> decl_ok B x s -> top_ok (env_of B s) v ->
   at_toks s (toks_of_pieces (fmt_stmt fixed lvl (FmtAst.SInferredDecl x v [])) ++ mk T_NL :: r) e ->
   is_ws (look0 (skip1 r)) = false ->
-  exists s', parse_inferred_decl_stmt B s = Ok (Some (Parser.SInferredDecl x (fexpr_tree v))) s' /\ at_toks s' (skip1 r) e.
+  exists s', parse_inferred_decl_stmt B s = Ok (Some (Parser.SInferredDecl x (fexpr_tree v))) s' /\ at_toks s' (skip1 r) e /\ peek_ok s' (skip1 r).
 Proof. exact inferred_decl_roundtrip. Qed.
 Print Assumptions C06_roundtrip_inferred_decl_partial.
 
@@ -45,7 +45,7 @@ Theorem C06_roundtrip_call_stmt_partial :
   Forall (item_ok (env_of B s) true) args ->
   at_toks s (toks_of_pieces (fmt_stmt fixed lvl (FmtAst.SCall n args [])) ++ mk T_NL :: r) e ->
   is_ws (look0 (skip1 r)) = false ->
-  exists s', parse_call_stmt B s = Ok (Some (Parser.SCallStmt (TCall n (map fexpr_tree args)))) s' /\ at_toks s' (skip1 r) e.
+  exists s', parse_call_stmt B s = Ok (Some (Parser.SCallStmt (TCall n (map fexpr_tree args)))) s' /\ at_toks s' (skip1 r) e /\ peek_ok s' (skip1 r).
 Proof. exact call_stmt_roundtrip. Qed.
 Print Assumptions C06_roundtrip_call_stmt_partial.
 
@@ -55,7 +55,7 @@ Theorem C06_roundtrip_return_value_partial :
   has_ret s = true -> top_ok (env_of B s) v ->
   at_toks s (toks_of_pieces (fmt_stmt fixed lvl (FmtAst.SReturn (Some v) [])) ++ mk T_NL :: r) e ->
   is_ws (look0 (skip1 r)) = false ->
-  exists s', parse_return_stmt B s = Ok (Some (Parser.SReturn (Some (fexpr_tree v)))) s' /\ at_toks s' (skip1 r) e.
+  exists s', parse_return_stmt B s = Ok (Some (Parser.SReturn (Some (fexpr_tree v)))) s' /\ at_toks s' (skip1 r) e /\ peek_ok s' (skip1 r).
 Proof. exact return_value_roundtrip. Qed.
 Print Assumptions C06_roundtrip_return_value_partial.
 
@@ -64,7 +64,7 @@ Theorem C06_roundtrip_bare_return_partial :
   has_ret s = true -> ret_value s = false ->
   at_toks s (toks_of_pieces (fmt_stmt fixed lvl (FmtAst.SReturn None [])) ++ mk T_NL :: r) e ->
   is_ws (look0 (skip1 r)) = false ->
-  exists s', parse_return_stmt B s = Ok (Some (Parser.SReturn None)) s' /\ at_toks s' (skip1 r) e.
+  exists s', parse_return_stmt B s = Ok (Some (Parser.SReturn None)) s' /\ at_toks s' (skip1 r) e /\ peek_ok s' (skip1 r).
 Proof. exact return_bare_roundtrip. Qed.
 Print Assumptions C06_roundtrip_bare_return_partial.
 
@@ -73,9 +73,29 @@ Theorem C06_roundtrip_break_partial :
   in_loop s = true ->
   at_toks s (toks_of_pieces (fmt_stmt fixed lvl (FmtAst.SBreak [])) ++ mk T_NL :: r) e ->
   is_ws (look0 (skip1 r)) = false ->
-  exists s', parse_break_stmt s = Ok (Some Parser.SBreak) s' /\ at_toks s' (skip1 r) e.
+  exists s', parse_break_stmt s = Ok (Some Parser.SBreak) s' /\ at_toks s' (skip1 r) e /\ peek_ok s' (skip1 r).
 Proof. exact break_roundtrip. Qed.
 Print Assumptions C06_roundtrip_break_partial.
+
+Theorem C06_roundtrip_typed_decl_partial :
+  forall (B : benv) (fixed : fixes) (lvl : nat) (s : pst) (x : str) (t : fty) (ty : Pratt.ty) (r : list token) (e : list (perr * nat)),
+  ident_text x = true -> fty_ty t = Some ty -> decl_ok B x s ->
+  at_toks s (toks_of_pieces (fmt_stmt fixed lvl (FmtAst.STypedDecl x t [])) ++ mk T_NL :: r) e ->
+  is_ws (look0 (skip1 r)) = false ->
+  exists s', parse_typed_decl_stmt B s = Ok (Some (Parser.STypedDecl x (Some ty))) s' /\ at_toks s' (skip1 r) e /\ peek_ok s' (skip1 r).
+Proof. exact typed_decl_roundtrip. Qed.
+Print Assumptions C06_roundtrip_typed_decl_partial.
+
+(* x = v with a variable as target (a[i] = v and m.k = v are not covered) *)
+Theorem C06_roundtrip_assign_var_partial :
+  forall (B : benv), (forall s t n, b_tyerr B s t n = false) ->
+  forall (fixed : fixes) (lvl : nat) (s : pst) (x : str) (v : fexpr) (r : list token) (e : list (perr * nat)),
+  ident_text x = true -> Parser.is_func x s = false -> scope_get x s = true -> top_ok (env_of B s) v ->
+  at_toks s (toks_of_pieces (fmt_stmt fixed lvl (FmtAst.SAssign (FVar x) v [])) ++ mk T_NL :: r) e ->
+  is_ws (look0 (skip1 r)) = false ->
+  exists s', parse_assign_stmt B s = Ok (Some (Parser.SAssign (TVar x) (fexpr_tree v))) s' /\ at_toks s' (skip1 r) e /\ peek_ok s' (skip1 r).
+Proof. exact assign_var_roundtrip. Qed.
+Print Assumptions C06_roundtrip_assign_var_partial.
 
 (* ---------- non-vacuity: the hypotheses are satisfiable and the models run ---------- *)
 (*   x := a[i + 1] * 2     and     print x [1 2] (len a)     in a scope that declares a and i *)
